@@ -87,6 +87,18 @@ fn var_cases(tier: Tier) -> Vec<Case> {
                 let len2 = (n / 2) * 2;
                 let (doc, cfg_l) = with_limit("var-limit", l, via, &expr);
                 v.push(mk(doc, 1000, if via { 1024 } else { cfg_l }, 100, if len2 <= l as usize { Some(1) } else { None }, format!("var:concat:L={l}:len={len2}:{}", if via { "config-element" } else { "config" })));
+                // attributes of a <reuse> become variables of the instance: given directly, and by expansion
+                // (every attribute of the reuse element is such a variable, href="#t" included: only limits that admit it)
+                if l < 4 {
+                    continue;
+                }
+                let tpl = "<specs><text id=\"t\" class=\"body\" text=\"$m\"/></specs>";
+                let direct = format!("{tpl}<reuse href=\"#t\" m=\"{}\"/>", "c".repeat(n));
+                let (doc, cfg_l) = with_limit("var-limit", l, via, &direct);
+                v.push(mk(doc, 1000, if via { 1024 } else { cfg_l }, 100, if ok { Some(1) } else { None }, format!("var:reuse-attr:L={l}:len={n}:{}", if via { "config-element" } else { "config" })));
+                let expanded = format!("<var a=\"{}\"/>{tpl}<reuse href=\"#t\" m=\"${{a}}${{a}}\"/>", "d".repeat(n / 2));
+                let (doc, cfg_l) = with_limit("var-limit", l, via, &expanded);
+                v.push(mk(doc, 1000, if via { 1024 } else { cfg_l }, 100, if len2 <= l as usize { Some(1) } else { None }, format!("var:reuse-attr-expanded:L={l}:len={len2}:{}", if via { "config-element" } else { "config" })));
             }
         }
         // growth by self-concatenation in a loop: length doubles every pass
